@@ -69,6 +69,9 @@ type Store interface {
 	Observe(path string) (string, error)       // observation in the model's String() format
 	SetupAux(aux string) error                 // auxiliary input files (attachments)
 	Structural(path string, m Model) error     // extra invariants on the re-read file (C39), nil if none
+	// Valid says whether step s belongs to the generator's alphabet in model state m (shrinking must
+	// not turn a history into one the generator deliberately never produces).
+	Valid(m Model, s Step) bool
 }
 
 // Violation found by a history.
@@ -88,6 +91,7 @@ type Stats struct {
 	CrashAfter   int
 	Events       int
 	Absorbed     int
+	Skipped      int
 }
 
 func sumFile(p string) string {
@@ -167,6 +171,12 @@ func Run(st Store, h History) (*Violation, Stats, error) {
 		return nil, stats, fmt.Errorf("initial observation of %s does not match its own model: %v\nobs:   %s\nmodel: %s", h.Doc, err, obs, model.String())
 	}
 	for i, s := range h.Steps {
+		if !st.Valid(model, s) {
+			// an earlier faulted step failed, so this step is no longer in the generator's alphabet
+			// (e.g. it would re-add a present attachment): not executed
+			stats.Skipped++
+			continue
+		}
 		stats.Steps++
 		before := model.Clone()
 		after := model.Clone()
@@ -326,8 +336,21 @@ func Run(st Store, h History) (*Violation, Stats, error) {
 
 // Shrink minimises a failing history (same violation class), re-executing every candidate.
 func Shrink(st Store, h History, class string, budget int) History {
+	valid := func(c History) bool {
+		m, err := initialModelOf(st, c.Doc)
+		if err != nil {
+			return false
+		}
+		for _, s := range c.Steps {
+			if !st.Valid(m, s) {
+				return false
+			}
+			m.Apply(s)
+		}
+		return true
+	}
 	fails := func(c History) bool {
-		if budget <= 0 {
+		if budget <= 0 || !valid(c) {
 			return false
 		}
 		budget--
@@ -360,6 +383,30 @@ func Shrink(st Store, h History, class string, budget int) History {
 		}
 	}
 	return h
+}
+
+var initModels = map[string]Model{}
+
+func initialModelOf(st Store, doc string) (Model, error) {
+	key := st.ID() + "|" + doc
+	if m, ok := initModels[key]; ok {
+		return m.Clone(), nil
+	}
+	dir, err := mkScratch()
+	if err != nil {
+		return nil, err
+	}
+	defer rmScratch(dir)
+	path := filepath.Join(dir, "doc.pdf")
+	if err := st.Materialise(doc, path); err != nil {
+		return nil, err
+	}
+	m, err := st.NewModel(path)
+	if err != nil {
+		return nil, err
+	}
+	initModels[key] = m
+	return m.Clone(), nil
 }
 
 func sortedKeys[V any](m map[string]V) []string {
